@@ -96,6 +96,10 @@ def generate(seed, tier="quick"):
                 o, c = ("[", "]") if s["prev"][0] == "list" else ("(", ",)" if len(items) == 1 else ")")
                 s["arg"] = o + ", ".join(items) + c
                 s["unmanaged"] = True
+    wrng = sub(seed, "twin")
+    if wrng.random() < 0.08 and len(prog["files"]) == 1:
+        W.add_twin_file(prog, wrng, vary=wrng.random() < 0.6)
+    W.sprinkle_uni(prog, sub(seed, "uni"), 0.1)
     return {"program": prog, "driver": driver, "fmt": c01.draw_fmt(sub(seed, "fmt")), "flags": "create,fix", "allow_raises": True}
 
 
